@@ -1,7 +1,7 @@
 (** C08 for the SACK path: the handshake reader is bounded by its single deadline for EVERY packet stream, and the
     whole SACK run by (run deadline) + (handshake read timeout) + (one poll interval). *)
 From Coq Require Import List ZArith Bool Lia.
-From TR Require Import Lib.Bytes Wire.Decode Drv.Drivers Drv.Handshake Eng.Engine Eng.Timed Proofs.EngTimed.
+From TR Require Import Lib.Bytes Wire.Decode Drv.Drivers Drv.Handshake Eng.Engine Eng.Timed Proofs.EngTimed Generated.Structure.
 Import ListNotations.
 Open Scope Z_scope.
 
@@ -34,3 +34,9 @@ Proof.
   intros H. injection H as <-.
   destruct (parallel_run_cancel_spec p script (Z.max 0 (M - (dial + hs))) r ltac:(lia) R) as [_ H2]. lia.
 Qed.
+
+(** tie to the source (regenerated on every run): ReadHandshake arms exactly one read deadline before its loop, nothing
+    the loop runs re-arms one, and the deadline is the model's *)
+Theorem handshake_reader_structure :
+  sack_handshake_deadlines_before_loop = 1 /\ sack_handshake_deadline_in_loop = false /\ sack_handshake_timeout_ns = handshake_read_timeout.
+Proof. repeat split; reflexivity. Qed.
